@@ -1,7 +1,10 @@
 package checks
 
 import (
+	"math/rand"
+
 	"github.com/zmap/zlint/v3/lint"
+	"verif/der"
 
 	"verif/mon"
 )
@@ -54,4 +57,16 @@ func mutGate(r *mon.Report, min int64) []string {
 		return []string{"too few parser-accepted mutants observed"}
 	}
 	return nil
+}
+
+// mutateTree returns the encoded bytes of a mutant of seed idx without parsing it.
+func mutateTree(idx int, rng interface {
+	Intn(int) int
+}) ([]byte, string) {
+	r, ok := rng.(*rand.Rand)
+	if !ok {
+		return nil, ""
+	}
+	t, desc := der.Mutate(W.Trees[idx], r, []*der.Node{W.Trees[idx]})
+	return t.Encode(), desc
 }
